@@ -105,7 +105,7 @@ func rcEncodeOp(o rcOp) string {
 	switch o.kind {
 	case 'E':
 		return fmt.Sprintf("E%d=%s", o.p, o.c)
-	case 'X', 'T':
+	case 'X', 'T', 'S':
 		return string(o.kind)
 	case 'R':
 		s := "0"
@@ -116,6 +116,16 @@ func rcEncodeOp(o rcOp) string {
 	default:
 		return fmt.Sprintf("C%s:%s:%s:%d", f, ints(o.order), o.beh, o.at)
 	}
+}
+
+// modRunner: a runner whose "commands" may touch the project (for the self-modifying family)
+type modRunner struct{ onTask map[string]func() }
+
+func (r *modRunner) Run(cmd string, stream iostream.IOStream, task string, env []string) (shell.Result, error) {
+	if f := r.onTask[task]; f != nil {
+		f()
+	}
+	return shell.Result{Cmd: cmd, Status: 0}, nil
 }
 
 type crashSentinel struct{}
@@ -221,7 +231,15 @@ func runcacheCmd(args []string) error {
 		root := filepath.Join(base, "h"+strconv.Itoa(caseNo))
 		os.MkdirAll(root, 0o755)
 		defer os.RemoveAll(root)
-		src := rcSource(ts)
+		// a history with an 'S' operation starts with a spokfile that lacks the last task; 'S' is the user adding it (the cache
+		// file, if there is one, then predates the task)
+		visible := len(ts)
+		for _, o := range ops {
+			if o.kind == 'S' {
+				visible = len(ts) - 1
+			}
+		}
+		src := rcSource(ts[:visible])
 		byName := map[int]rcTask{}
 		for _, t := range ts {
 			byName[t.name] = t
@@ -280,6 +298,7 @@ func runcacheCmd(args []string) error {
 			return s
 		}
 		var outs []string
+		lastFailed := map[int]bool{} // the task's most recent execution did not complete successfully
 		nRunOps := 0
 		for oi, o := range ops {
 			st.Ops++
@@ -307,6 +326,9 @@ func runcacheCmd(args []string) error {
 					}
 					content[o.p] = o.c
 				}
+			case 'S':
+				visible = len(ts)
+				src = rcSource(ts)
 			case 'X':
 				os.RemoveAll(filepath.Join(root, ".spok"))
 				lastOK, hasOK = map[int]string{}, map[int]bool{}
@@ -451,6 +473,9 @@ func runcacheCmd(args []string) error {
 								prop = "C10"
 							}
 							fail(prop, fmt.Sprintf("op %d: task %s reported skipped but its inputs (%s) differ from those of its last success (%v %s)", oi, x.name, now, hasOK[n], lastOK[n]))
+							if lastFailed[n] {
+								fail("C09", fmt.Sprintf("op %d: task %s is reported skipped although its last execution had a failing command and it never succeeded on its current inputs (%s)", oi, x.name, now))
+							}
 							if forcedSeen {
 								fail("C14", fmt.Sprintf("op %d: after a forced run, task %s is skipped although its inputs (%s) differ from those of its last success (%v %s)", oi, x.name, now, hasOK[n], lastOK[n]))
 							}
@@ -479,6 +504,11 @@ func runcacheCmd(args []string) error {
 				}
 				if o.force {
 					forcedSeen = true
+				}
+				for i, n := range o.order {
+					if executed[rcName(n)] {
+						lastFailed[n] = o.beh[i] != 'S'
+					}
 				}
 				// successes recorded by the reference: a task whose command ran with behaviour S completed successfully
 				for i, n := range o.order {
@@ -576,6 +606,37 @@ func runcacheCmd(args []string) error {
 		}
 		rec(nil)
 	}
+	// (a+) the spokfile grows: a(f0) alone is run, then b(a,f0) - same files as a - is added to the spokfile while the cache file
+	// already exists; every sequence over runs of b (succeeding, failing, forced, killed) and edits after that
+	{
+		ts := []rcTask{{name: 0, lits: []int{0}}, {name: 1, lits: []int{0}, deps: []int{0}}}
+		alpha := []rcOp{
+			{kind: 'E', p: 0, c: "1"}, {kind: 'E', p: 0, c: "2"},
+			mkRun(ts, 1, false, 'S', -1), mkRun(ts, 1, false, 'F', 1), mkRun(ts, 1, true, 'S', -1), mkRun(ts, 0, false, 'S', -1),
+		}
+		cb := mkRun(ts, 1, false, 'S', -1)
+		cb.kind, cb.at = 'C', 1
+		alpha = append(alpha, cb)
+		depth := 4
+		st.Exhaustive += fmt.Sprintf("; spokfile a(f0), later also b(a,f0): a is run, then b is added to the spokfile, then every sequence of length <= %d over %d operations (edits, runs of b succeeding / failing / forced / killed, run of a)", depth, len(alpha))
+		idx := 0
+		var rec func(prefix []rcOp)
+		rec = func(prefix []rcOp) {
+			if len(prefix) > 0 {
+				idx++
+				if idx%*nshards == *shard {
+					runHistory("exhaustive-spokfile-grows", ts, append([]rcOp{{kind: 'E', p: 0, c: "1"}, mkRun(ts, 0, false, 'S', -1), {kind: 'S'}}, prefix...))
+				}
+			}
+			if len(prefix) == depth {
+				return
+			}
+			for _, o := range alpha {
+				rec(append(append([]rcOp{}, prefix...), o))
+			}
+		}
+		rec(nil)
+	}
 	// (a') bounded-exhaustive on a task whose only dependency is a glob that can stop matching: shape "g(*.dat)"
 	{
 		ts := shapes["g(*.dat)"]
@@ -640,6 +701,57 @@ func runcacheCmd(args []string) error {
 			}
 		}
 		rec(nil)
+	}
+	// (a*) implementation only: a task whose command rewrites a file that the NEXT task of the same run depends on (a formatter
+	// before a linter).  The later task ran on the rewritten file; when the file is put back as it was before the run, that task's
+	// inputs are not those of its last success: it must run.  (What the rewriting task itself should then do is not judged.)
+	if *shard == 0 {
+		for variant := 0; variant < 4; variant++ {
+			root := filepath.Join(base, fmt.Sprintf("selfmod%d", variant))
+			os.MkdirAll(root, 0o755)
+			src := "task a(\"f0.txt\") {\n    run a\n}\n\ntask b(a, \"f0.txt\") {\n    run b\n}\n"
+			if variant%2 == 1 {
+				src = "task a(\"*.txt\") {\n    run a\n}\n\ntask b(a, \"*.txt\") {\n    run b\n}\n"
+			}
+			f0 := filepath.Join(root, "f0.txt")
+			os.WriteFile(f0, []byte("before"), 0o644)
+			runB := func(rewrite bool) (bSkipped bool, err error) {
+				tree, perr := parser.New(src).Parse()
+				if perr != nil {
+					return false, perr
+				}
+				sf, nerr := file.New(tree, root, log)
+				if nerr != nil {
+					return false, nerr
+				}
+				rr := &modRunner{onTask: map[string]func(){}}
+				if rewrite {
+					rr.onTask["a"] = func() { os.WriteFile(f0, []byte("rewritten by a"), 0o644) }
+				}
+				rs, rerr := sf.Run(iostream.Null(), rr, variant >= 2, "b")
+				for _, x := range rs {
+					if x.Task == "b" {
+						bSkipped = x.Skipped
+					}
+				}
+				return bSkipped, rerr
+			}
+			if _, err := runB(true); err != nil {
+				continue
+			}
+			os.WriteFile(f0, []byte("before"), 0o644) // back to what it was before the run (b last succeeded on "rewritten by a")
+			st.BySource["task-rewrites-a-later-task's-input(impl only)"]++
+			tree, _ := parser.New(src).Parse()
+			sf, _ := file.New(tree, root, log)
+			rs, rerr := sf.Run(iostream.Null(), &modRunner{onTask: map[string]func(){}}, false, "b")
+			for _, x := range rs {
+				if x.Task == "b" && x.Skipped && rerr == nil {
+					st.OracleFail["C01"]++
+					fmt.Fprintf(bo, "C01 selfmod-%d task b reported skipped, but it last succeeded on the file as task a had rewritten it in that run, and the file has been put back since\n", variant)
+				}
+			}
+			os.RemoveAll(root)
+		}
 	}
 	// (b) random histories to depth 25 over all shapes
 	nr := 3000
